@@ -87,7 +87,7 @@ class CheckContext:
         return sum(1 for o in self.obligations if o.rule == rule)
 
 
-GENERIC_RULES = {"TRUTHY", "MEMO-KEY", "MEMO-DEP", "RECOMPUTE", "ARG-TYPE"}
+GENERIC_RULES = {"TRUTHY", "MEMO-KEY", "MEMO-DEP", "RECOMPUTE", "ARG-TYPE", "LOST-UPDATE"}
 
 
 def tree_is_reference(root: str) -> bool:
